@@ -32,7 +32,7 @@ THEOREMS = ["Hyp.Text." + t for t in (
     "c03_depends_only_on_table", "c03_search_word", "c03_search_phrase", "c03_search_glob",
     "c03_updates_defined", "c03_rejected", "c03_admissible_default", "c03_stable_tables_decidable",
     "c03_unstable_query_misses")]
-CASES = {"quick": 1600, "thorough": 16000}
+CASES = {"quick": 1600, "thorough": 12000}
 BUDGET_S = {"quick": 42, "thorough": 760}
 BATCH = 8
 RULE = ("each case = one real TextIndex (Okapi or cosine back end, family32/64, lexicon pipeline default / "
@@ -297,7 +297,7 @@ def gen(rng, tier, idx):
     backend = rng.choice(["okapi", "cosine"])
     fam = rng.choice(["32", "64"])
     r = rng.random()
-    if tier == "thorough" and r < 0.004:
+    if tier == "thorough" and r < 0.005:
         vocab = "large"
     elif r < 0.45:
         vocab = "medium"
